@@ -3,32 +3,37 @@
 #include "vf_common.hpp"
 #include <memory>
 namespace vf {
-template <class T, bool POCMA, bool POCS>
+template <class T, bool POCMA, bool POCS, bool POCCA = false>
 struct salloc {
     using value_type = T;
     int id;
     salloc(int i = 0) : id(i) {}
-    template <class U> salloc(salloc<U, POCMA, POCS> const& o) : id(o.id) {}
+    template <class U> salloc(salloc<U, POCMA, POCS, POCCA> const& o) : id(o.id) {}
     T* allocate(std::size_t n);
     void deallocate(T* p, std::size_t n);
     using propagate_on_container_move_assignment = std::integral_constant<bool, POCMA>;
     using propagate_on_container_swap = std::integral_constant<bool, POCS>;
-    using propagate_on_container_copy_assignment = std::false_type;
+    using propagate_on_container_copy_assignment = std::integral_constant<bool, POCCA>;
     using is_always_equal = std::false_type;
-    template <class U> struct rebind { using other = salloc<U, POCMA, POCS>; };
+    template <class U> struct rebind { using other = salloc<U, POCMA, POCS, POCCA>; };
     friend bool operator==(salloc const& a, salloc const& b) { return a.id == b.id; }
     friend bool operator!=(salloc const& a, salloc const& b) { return a.id != b.id; }
 };
-// an element type with non-trivial, possibly throwing special members
-struct elem {
-    int v;
-    elem();
-    elem(elem const&);
-    elem& operator=(elem const&);
-    ~elem();
-    bool operator==(elem const& o) const { return v == o.v; }
-};
 }
+// an element type with non-trivial, possibly throwing special members. It lives in boost::gil so that clang's two-phase lookup finds
+// memunit_step & co. for elem* by argument-dependent lookup (g++ is lenient here; the library's own tests use builtin element types)
+namespace boost { namespace gil {
+struct verif_elem {
+    int v;
+    verif_elem();
+    verif_elem(verif_elem const&);
+    verif_elem& operator=(verif_elem const&);
+    ~verif_elem();
+    bool operator==(verif_elem const& o) const { return v == o.v; }
+    bool operator!=(verif_elem const& o) const { return v != o.v; }
+};
+}}
+namespace vf { using elem = boost::gil::verif_elem; }
 template <class Img> void use_all(Img& a, Img& b, typename Img::value_type const& p, typename Img::allocator_type const& al)
 {
     using pt = typename Img::point_t;
@@ -50,3 +55,49 @@ void t_sticky_i(image<rgb8_pixel_t, false, sticky_alloc>& a, image<rgb8_pixel_t,
 void t_sticky_p(image<rgb8_pixel_t, true, sticky_alloc>& a, image<rgb8_pixel_t, true, sticky_alloc>& b) { use_all(a, b, rgb8_pixel_t(), sticky_alloc(1)); }
 // converting copy between organisations
 void t_conv(image<rgb8_pixel_t, true>& a, image<rgb8_pixel_t, false> const& b) { image<rgb8_pixel_t, true> x(b); a = b; }
+// an allocator that stays put on move and swap but propagates on copy assignment
+using pocca_alloc = salloc<unsigned char, false, false, true>;
+void t_pocca_i(image<rgb8_pixel_t, false, pocca_alloc>& a, image<rgb8_pixel_t, false, pocca_alloc>& b) { use_all(a, b, rgb8_pixel_t(), pocca_alloc(1)); }
+#ifdef VERIF_C10_VIEWS
+// construction from views of other shapes (I0) and a bit-aligned image (I9: its iterators hand out proxy references)
+template <class Img> void use_views(Img const& a)
+{
+    Img v1(flipped_left_right_view(const_view(a)));
+    Img v2(subsampled_view(const_view(a), 2, 1));
+    Img v3(transposed_view(const_view(a)));
+    Img v4(flipped_up_down_view(const_view(a)));
+}
+void t_views_i(image<rgb8_pixel_t, false> const& a) { use_views(a); }
+void t_views_p(image<rgb8_pixel_t, true> const& a) { use_views(a); }
+using bits_image_t = bit_aligned_image3_type<1, 2, 3, rgb_layout_t>::type;
+void t_bits(bits_image_t& a, bits_image_t& b, bits_image_t::value_type p)
+{
+    using Img = bits_image_t;
+    using pt = Img::point_t;
+    std::allocator<unsigned char> al;
+    Img c0; Img c(3, 4, 8, al); Img d(pt(2, 2), p, 0, al); Img d2(2, 2, p, 0, al);
+    Img e(a); Img f(std::move(b)); Img g(view(a), 4, al);
+    a = e; a = std::move(f);
+    a.recreate(5, 5); a.recreate(pt(1, 1), p, 2); a.recreate(4, 4, p, 8, al);
+    a.swap(c);
+    Img v1(flipped_left_right_view(view(a)));
+    Img v2(subsampled_view(view(a), 2, 1));
+}
+#endif
+#ifdef VERIF_C10_ELEM
+// (compiled without BOOST_GIL_USE_CONCEPT_CHECK: the concept checks of image<> demand a pixel, the class comment and the library's tests do not)
+// a non-pixel element type with non-trivial special members (the class comment allows any Regular element): everything but the view constructor
+template <class Img> void use_all_elem(Img& a, Img& b, typename Img::value_type const& p, typename Img::allocator_type const& al)
+{
+    using pt = typename Img::point_t;
+    Img c0; Img c1(std::size_t(8), al);
+    Img c(3, 4, 8, al); Img c2(pt(3, 4), 8, al); Img d(pt(2, 2), p, 0, al); Img d2(2, 2, p, 0, al);
+    Img e(a); Img f(std::move(b));
+    a = e; a = std::move(f);
+    a.recreate(5, 5); a.recreate(pt(5, 5), 16); a.recreate(pt(1, 1), p, 2); a.recreate(1, 1, p, 2);
+    a.recreate(4, 4, 8, al); a.recreate(pt(4, 4), 8, al); a.recreate(pt(4, 4), p, 8, al); a.recreate(4, 4, p, 8, al);
+    a.swap(c); swap(a, d);
+}
+void t_elem_std(image<elem, false>& a, image<elem, false>& b) { use_all_elem(a, b, elem(), std::allocator<unsigned char>()); }
+void t_elem_sticky(image<elem, false, sticky_alloc>& a, image<elem, false, sticky_alloc>& b) { use_all_elem(a, b, elem(), sticky_alloc(1)); }
+#endif
